@@ -1,3 +1,5 @@
 SPECIFICATION TSpec
 CONSTRAINT JudgeP
 CONSTRAINT JudgeM
+CONSTANTS
+  Variant = "fixed"
